@@ -37,6 +37,9 @@ R = [
  (r"^(op_sequence::SequenceIterator::new|re_program::ReProgram::new)\|unwrap:unwrap\(first\(", None, "a Sequence is only built by make_sequence with >= 2 operations (optimize returns the sole element of a 1-sequence)"),
  (r"^<op_choice::Choice as operation::OperationControl>::get_(minimum_)?match_length\|unwrap", None, "Choice::new is called only when more than one branch was parsed"),
  (r"^<op_atom::Atom as operation::OperationControl>::get_initial_character_class\|index:index\(a1\.atom, 0\)", None, "guarded by len != 0 where Atom.len mirrors atom.len() (set together in Atom::new, the only constructor)"),
+ (r"^<op_atom::Atom as operation::OperationControl>::matches_iter\|Overflow:Add\(a3, a1\.len\)", None, "position <= len(search) on entry to every matches_iter (POSITION-RANGE: the scan loops range below len+1 [SEARCH-COVER range|*], check_preconditions tests fixed positions against the input length [PRECOND-CHECK fixed|position-within-input] and ranges below len [floating|range-bounds], every operator passes on its own position or one a child iterator yielded, and the leaves yield at most len [LITERAL-ATOM, CLASS-MEMBERSHIP, LEAF-BACKREF]); a1.len is the length of the atom, at most the pattern length"),
+ (r"^<op_back_reference::BackReference as operation::OperationControl>::matches_iter\|Overflow:Add\(a3, ", None, "position <= len(search) on entry to every matches_iter (POSITION-RANGE: the scan loops range below len+1 [SEARCH-COVER range|*], check_preconditions tests fixed positions against the input length [PRECOND-CHECK fixed|position-within-input] and ranges below len [floating|range-bounds], every operator passes on its own position or one a child iterator yielded, and the leaves yield at most len [LITERAL-ATOM, CLASS-MEMBERSHIP, LEAF-BACKREF]); the other operand is the length of a captured span or an index below it, at most len(search)"),
+ (r"^<op_greedy_fixed::GreedyFixed as operation::OperationControl>::matches_iter\|Overflow:Add\(v, a1\.len\)", None, "executed only after the repeated term, whose every match has length a1.len, matched at p: p + len <= len(search)"),
  (r"^<op_atom::Atom as operation::OperationControl>::matches_iter\|unwrap", None, "position + len <= input length was just established, so skip(position) yields at least len items"),
  (r"^<op_back_reference::BackReference as operation::OperationControl>::matches_iter\|Overflow:Sub\(ReMatcher::end_backref", None, "capture start <= end: both written together by CaptureGroupIterator::next / clear_captured_groups_beyond (CAPTURE-BACKREF-PAIR)"),
  (r"^<op_back_reference::BackReference as operation::OperationControl>::matches_iter\|Overflow:Sub\(add\(a3, sub\(", None, "l = e - s > 0 on this path (s != e)"),
